@@ -367,13 +367,13 @@ def _neg_coef_nonlinear(e):
 PROFILES = {
     #           numeric op weights                                                         logical op weights
     'mixed': ({'lin': 6, 'abs': 3, 'minmax': 3, 'mul': 3, 'monoprod': 1, 'sqr': 1, 'div': 1, 'if': 2, 'count': 1, 'numberof': 1, 'pl': 1},
-              {'cmp': 6, 'batom': 4, 'not': 2, 'andor': 4, 'iter': 1, 'implies': 3, 'iff': 2, 'cnt': 1, 'alldiff': 1}),
+              {'cmp': 6, 'batom': 4, 'not': 2, 'andor': 4, 'iter': 1, 'implies': 3, 'iff': 2, 'cnt': 1, 'alldiff': 1, 'member': 1}),
     'quad': ({'lin': 6, 'abs': 3, 'minmax': 2, 'mul': 5, 'monoprod': 5, 'sqr': 2, 'div': 1, 'if': 1, 'count': 0, 'numberof': 0, 'pl': 1},
-             {'cmp': 6, 'batom': 2, 'not': 1, 'andor': 2, 'iter': 0, 'implies': 1, 'iff': 1, 'cnt': 0, 'alldiff': 0}),
+             {'cmp': 6, 'batom': 2, 'not': 1, 'andor': 2, 'iter': 0, 'implies': 1, 'iff': 1, 'cnt': 0, 'alldiff': 0, 'member': 1}),
     'logic': ({'lin': 4, 'abs': 1, 'minmax': 1, 'mul': 0, 'sqr': 0, 'div': 0, 'if': 2, 'count': 1, 'numberof': 0, 'pl': 0},
-              {'cmp': 2, 'batom': 8, 'not': 2, 'andor': 6, 'iter': 1, 'implies': 6, 'iff': 4, 'cnt': 1, 'alldiff': 0}),
+              {'cmp': 2, 'batom': 8, 'not': 2, 'andor': 6, 'iter': 1, 'implies': 6, 'iff': 4, 'cnt': 1, 'alldiff': 0, 'member': 2}),
     'count': ({'lin': 4, 'abs': 1, 'minmax': 2, 'mul': 1, 'sqr': 0, 'div': 1, 'if': 2, 'count': 4, 'numberof': 4, 'pl': 0},
-              {'cmp': 5, 'batom': 3, 'not': 1, 'andor': 2, 'iter': 1, 'implies': 2, 'iff': 1, 'cnt': 5, 'alldiff': 3}),
+              {'cmp': 5, 'batom': 3, 'not': 1, 'andor': 2, 'iter': 1, 'implies': 2, 'iff': 1, 'cnt': 5, 'alldiff': 3, 'member': 3}),
     'pl': ({'lin': 5, 'abs': 2, 'minmax': 2, 'mul': 1, 'sqr': 0, 'div': 2, 'if': 2, 'count': 0, 'numberof': 0, 'pl': 6},
            {'cmp': 6, 'batom': 2, 'not': 1, 'andor': 2, 'iter': 0, 'implies': 1, 'iff': 1, 'cnt': 0, 'alldiff': 0}),
 }
@@ -802,6 +802,36 @@ class Gen:
         kind = rng.choice(CNT)
         return (kind, ('n', F(rng.rint(0, len(args)))), ('count', args))
 
+    def l_member(self, d):
+        """`x in {c1, c2, ...}`: equalities of ONE variable with neighbouring constants (consecutive points of the variable's grid, or an
+        arithmetic progression with step 1, 1/2 or 1/4), combined by or / exists / a counting constraint / negated"""
+        rng = self.rng
+        cands = [j for j in range(self.n) if len(self.grids[j]) >= 2]
+        if not cands:
+            return None
+        j = rng.choice(cands)
+        lo, hi, isint = self.var_info(j)
+        k = rng.rint(2, 3)
+        g = self.grids[j]
+        if rng.chance(3, 4):
+            i = rng.below(max(1, len(g) - k + 1))
+            cs = g[i:i + k]
+        else:
+            step = F(1) if (isint and rng.chance(3, 4)) else rng.choice([F(1, 2), F(1, 4)])
+            base = g[rng.below(len(g))]
+            cs = [base + step * i for i in range(k)]
+        if len(cs) < 2:
+            return None
+        atoms = [('eq', ('v', j), ('n', F(c))) for c in cs]
+        r = rng.below(5)
+        if r < 2:
+            return ('or', atoms[0], atoms[1]) if len(atoms) == 2 else ('exists', atoms)
+        if r == 2:
+            return (rng.choice(CNT), ('n', F(1)), ('count', atoms))
+        if r == 3:
+            return ('not', ('or', atoms[0], atoms[1]) if len(atoms) == 2 else ('exists', atoms))
+        return ('and', ('not', atoms[0]), atoms[1])
+
     def l_alldiff(self, d):
         rng = self.rng
         args = [self.int_arg(d) for _ in range(rng.rint(2, 3))]
@@ -1191,7 +1221,59 @@ def gen_misc_case(rng, cfg):
     return m, grids
 
 
-TEMPLATE_KINDS = ['shared', 'pl2', 'pow', 'shared', 'div', 'pl2', 'compl', 'misc']
+def gen_levels_case(rng, cfg):
+    """a continuous variable restricted to fractional LEVELS: two or three reified comparisons `y == c` of the same variable with dyadic
+    non-integer constants, at least two of them with the same integer part (1/4 and 3/4, 5/4 and 3/2 ...): they are different entries
+    of the converter's var==const map (`map_vars_eq_const_`, keyed by (variable, constant)); each is used in its own place
+    (disjunction / count / implication / if-condition / objective term)."""
+    m = Model()
+    grids = []
+    base = rng.rint(-1, 1)
+    span = rng.rint(1, 2)
+    y = m.var(base, base + span, False); grids.append([F(base) + F(k, 4) for k in range(4 * span + 1)])
+    x = m.var(0, 3, True); grids.append([F(v) for v in range(4)])
+    z = m.var(0, 1, True); grids.append([F(0), F(1)])
+    ip = base + rng.below(span)                       # common integer part (as trunc towards -inf of the non-negative fraction added)
+    fr = rng.choice([(1, 3), (1, 2), (2, 3), (1, 3), (2, 1), (3, 1)])
+    c1, c2 = F(ip) + F(fr[0], 4), F(ip) + F(fr[1], 4)
+    E1 = ('eq', ('v', y), ('n', c1))
+    E2 = ('eq', ('v', y), ('n', c2))
+    others = [F(base) + F(k, 4) for k in range(4 * span + 1) if F(base) + F(k, 4) not in (c1, c2)]
+    E3 = ('eq', ('v', y), ('n', rng.choice(others)))
+    use3 = rng.chance(1, 3)
+    # at most ONE of the comparisons may be in a negative/mixed context, otherwise the converter wants the unary encoding and refuses
+    # for a continuous variable (DontNeedEqEncForVar / cvt:uenc:negctx:max): the count shape (all mixed) is kept at 1/8 for that refusal
+    first = rng.choice([0, 0, 0, 2, 2, 3, 3, 1])
+    if first == 0:
+        m.lcon(('or', E1, E2) if not use3 else ('exists', [E1, E2, E3]))
+    elif first == 1:
+        m.lcon(('ge', ('count', [E1, E2] + ([E3] if use3 else [])), ('n', 1)))
+    elif first == 2:
+        m.lcon(('or', E1, ('eq', ('v', z), ('n', 1))))
+    else:
+        m.con(F(1), None, lin={z: 1}, nl=('if', E1, ('n', 1), ('n', 0)))
+    second = rng.below(5)
+    X = ('ge', ('v', x), ('n', F(rng.rint(1, 3)))) if rng.chance(1, 2) else ('le', ('v', x), ('n', F(rng.rint(0, 2))))
+    if second == 0:
+        m.lcon(('implies', E2, X, ('T',)))
+    elif second == 1:
+        m.lcon(('iff', E2, X))
+    elif second == 2:
+        c0 = F(rng.rint(0, 3))
+        m.con(c0, c0 + rng.rint(0, 1), nl=('if', E2, ('v', x), ('n', F(rng.rint(0, 3)))))
+    elif second == 3:
+        m.obj(rng.choice(['min', 'max']), lin={x: F(rng.choice([1, -1])), y: F(rng.choice([1, -1, 2]))},
+              nl=('*', ('n', F(rng.choice([4, -4, 2]))), ('if', E2, ('n', 1), ('n', 0))))
+        m.con(None, F(rng.rint(2, 4)), lin={x: 1, z: 1})
+    else:
+        m.lcon(('or', ('not', E2), X))
+    _strip_types(cfg, ['CondLinConEQ'])
+    if rng.chance(2, 3):
+        _strip_types(cfg, ['OrConstraint', 'AndConstraint', 'NotConstraint', 'CountConstraint', 'IfThenConstraint', 'ImplicationConstraint'])
+    return m, grids
+
+
+TEMPLATE_KINDS = ['shared', 'pl2', 'pow', 'levels', 'shared', 'div', 'pl2', 'compl', 'misc', 'levels']
 
 
 def gen_pow_case(rng, cfg):
@@ -1325,7 +1407,7 @@ def gen_case(seed, index, tier='quick'):
         kind = TEMPLATE_KINDS[(index // 8) % len(TEMPLATE_KINDS)]
         cfg, quad_con, quad_obj = gen_cfg(rng, 'mixed')
         mm, grids = {'shared': gen_shared_case, 'pl2': gen_pl2_case, 'pow': gen_pow_case, 'div': gen_div_case,
-                     'compl': gen_compl_case, 'misc': gen_misc_case}[kind](rng, cfg)
+                     'compl': gen_compl_case, 'misc': gen_misc_case, 'levels': gen_levels_case}[kind](rng, cfg)
         return {'model': model_to_json(mm, grids), 'cfg': cfg, 'profile': 'tmpl-' + kind, 'id': '%d:%d' % (seed, index)}
     profile = PROFILE_ORDER[index % len(PROFILE_ORDER)]
     cfg, quad_con, quad_obj = gen_cfg(rng, profile)
